@@ -139,8 +139,10 @@ func NewServerConn(cfg ConnCfg, tr *xport.ScriptConn, pool websocket.BufferPool)
 	}
 	if cfg.HSTimeout {
 		u.HandshakeTimeout = time.Hour
+		tr.HonourWriteDeadline = true
 	}
 	c, err := u.Upgrade(w, upgradeRequest(cfg.Compress || cfg.Declined), nil)
+	tr.HonourWriteDeadline = false
 	if err != nil {
 		return nil, fmt.Errorf("harness: Upgrade failed: %w", err)
 	}
